@@ -71,7 +71,7 @@ func TestOne(t *testing.T) {
 	for _, m := range di.Methods {
 		fmt.Printf("debug method %-12s range %d..%d params %d\n", m.ID, m.Range.Start, m.Range.End, len(m.Parameters))
 	}
-	r := runVM(nf.Script, off, ioff, args, "int")
+	r := runVM(nf.Script, off, ioff, -1, args, "int")
 	fmt.Printf("VM: fault=%q depth=%d val=%s type=%s\n", r.fault, r.depth, r.val, r.typ)
 }
 
